@@ -245,8 +245,8 @@ V("block-structural-compare", "C20", "pyteal/compiler/optimizer/optimizer.py", "
 V("slot-limit-ge", "C10", "pyteal/compiler/scratchslots.py", "    if len(allSlots) > NUM_SLOTS:", "    if len(allSlots) >= NUM_SLOTS:", "R10.1")
 V("slot-requested-range", "C10", "pyteal/ast/scratch.py", "            if requestedSlotId < 0 or requestedSlotId >= NUM_SLOTS:", "            if requestedSlotId < 0 or requestedSlotId > NUM_SLOTS:", "R10.2")
 V("slot-eq-by-id", "C10", "pyteal/ast/scratch.py", "    def __repr__(self):\n        return \"ScratchSlot({})\".format(self.id)", "    def __eq__(self, other):\n        return isinstance(other, ScratchSlot) and self.id == other.id\n\n    def __hash__(self):\n        return hash(self.id)\n\n    def __repr__(self):\n        return \"ScratchSlot({})\".format(self.id)", "R10.2")
-V("validate-memo-block-only", "C17", "pyteal/ir/tealblock.py", "                visitedKey = (id(block), *sortedSlots)", "                visitedKey = (id(block),)", "R17.1")
-V("validate-store-after-load", "C17", "pyteal/ir/tealblock.py", "            if op.getOp() == Op.store:\n                for slot in op.getSlots():\n                    currentSlotsInUse.add(slot)\n\n            if op.getOp() == Op.load:", "            if op.getOp() == Op.load:", None)
+V("validate-memo-block-only", "C17", "pyteal/ir/tealblock.py", "                visitedKey = (id(block), *sorted(slot.id for slot in inUse))", "                visitedKey = (id(block),)", "R17.1")
+V("validate-store-after-load", "C17", "pyteal/ir/tealblock.py", "                if op.getOp() == Op.store:\n                    for slot in op.getSlots():\n                        currentSlotsInUse.add(slot)\n\n                if op.getOp() == Op.load:", "                if op.getOp() == Op.load:", None)
 V("index-tuple-dynamic-head-4", "C07", "pyteal/ast/abi/tuple.py", "        if typeBefore.is_dynamic():\n            offset += 2\n            continue", "        if typeBefore.is_dynamic():\n            offset += 4\n            continue", "R07.1")
 V("uint-decode-16-uses-32", "C07", "pyteal/ast/abi/uint.py", "    if size == 16:\n        return uint_var.store(ExtractUint16(encoded, start_index))", "    if size == 16:\n        return uint_var.store(ExtractUint32(encoded, start_index))", "R07.2")
 V("array-elem-no-prefix-skip", "C07", "pyteal/ast/abi/array_base.py", "        if arrayType.is_length_dynamic():\n            byteIndex = byteIndex + Int(Uint16TypeSpec().byte_length_static())", "        if arrayType.is_length_dynamic() and False:\n            byteIndex = byteIndex + Int(Uint16TypeSpec().byte_length_static())", "R07.3")
@@ -275,7 +275,7 @@ V("twin-uint-encode-computed", "C06", "pyteal/ast/abi/uint.py", "    if size == 
 V("twin-index-tuple-augassign", "C07", "pyteal/ast/abi/tuple.py", "        if typeBefore.is_dynamic():\n            offset += 2\n            continue", "        if typeBefore.is_dynamic():\n            offset = offset + 2\n            continue", None, "quiet")
 V("twin-spill-helper-var", "C02", "pyteal/compiler/subroutines.py", "                    stackDistance = len(slots) + numArgs - 1", "                    nslots = len(slots)\n                    stackDistance = nslots + numArgs - 1", None, "quiet")
 V("twin-approval-cond-elif", "C08", "pyteal/ast/router.py", "        if all(config == CallConfig.NEVER for config, _ in config_oc_pairs):\n            return 0\n        elif all(config == CallConfig.ALL for config, _ in config_oc_pairs):\n            return 1\n        else:", "        if all(config == CallConfig.NEVER for config, _ in config_oc_pairs):\n            return 0\n        if all(config == CallConfig.ALL for config, _ in config_oc_pairs):\n            return 1\n        if True:", None, "quiet")
-V("twin-validate-slots-listcomp", "C17", "pyteal/ir/tealblock.py", "            sortedSlots = sorted(slot.id for slot in currentSlotsInUse)", "            sortedSlots = sorted([slot.id for slot in currentSlotsInUse])", None, "quiet")
+V("twin-validate-slots-listcomp", "C17", "pyteal/ir/tealblock.py", "                visitedKey = (id(block), *sorted(slot.id for slot in inUse))", "                visitedKey = (id(block), *sorted([slot.id for slot in inUse]))", None, "quiet")
 V("twin-has-return-if-explicit", "C04", "pyteal/ast/seq.py", "        if len(self.args) == 0:\n            return False\n        return self.args[-1].has_return()", "        if not self.args:\n            return False\n        last = self.args[-1]\n        return last.has_return()", None, "quiet")
 V("twin-error-message", "C20", "pyteal/compiler/scratchslots.py", "\"Too many slots in use: {}, maximum is {}\".format(len(allSlots), NUM_SLOTS)", "\"Too many scratch slots are in use: {} (maximum {})\".format(len(allSlots), NUM_SLOTS)", None, "quiet")
 V("twin-decode-enumerate-start", "C09", "pyteal/ast/router.py", "            app_arg.decode(Txn.application_args[idx + 1])\n            for idx, app_arg in enumerate(app_arg_vals)", "            app_arg.decode(Txn.application_args[idx])\n            for idx, app_arg in enumerate(app_arg_vals, start=1)", None, "quiet")
@@ -311,7 +311,7 @@ V("twin-frame-file-relpath-start", "C15", "pyteal/stack_frame.py", "            
 V("constants-reuse-op-object", "C15", "pyteal/compiler/constants.py", "                if index == 0:\n                    assembled.append(TealOp(op.expr, Op.intc_0, \"//\", *op.args))", "                if index == 0:\n                    assembled.append(TealOp(None, Op.intc_0, \"//\", *op.args))", "R12.1")
 V("wideratio-cancel-shared", "C16", "pyteal/ast/widemath.py", "        self.numeratorFactors = numeratorFactors\n        self.denominatorFactors = denominatorFactors", "        shared = [x for x in numeratorFactors if any(x is y for y in denominatorFactors)]\n        self.numeratorFactors = [x for x in numeratorFactors if not any(x is s for s in shared)] or numeratorFactors\n        self.denominatorFactors = [x for x in denominatorFactors if not any(x is s for s in shared)] or denominatorFactors", "R16.2")
 V("twin-wideratio-copy-lists", "C16", "pyteal/ast/widemath.py", "        self.numeratorFactors = numeratorFactors\n        self.denominatorFactors = denominatorFactors", "        self.numeratorFactors = list(numeratorFactors)\n        self.denominatorFactors = list(denominatorFactors)", None, "quiet")
-V("validate-slots-count-memo", "C17", "pyteal/ir/tealblock.py", "                visitedKey = (id(block), *sortedSlots)", "                visitedKey = (id(block), len(sortedSlots))", "R17.1")
+V("validate-slots-count-memo", "C17", "pyteal/ir/tealblock.py", "                visitedKey = (id(block), *sorted(slot.id for slot in inUse))", "                visitedKey = (id(block), len(inUse))", "R17.1")
 V("uint-set-any-uint", "C19", "pyteal/ast/abi/uint.py", "        if isinstance(value, BaseType) and not (\n            isinstance(value.type_spec(), UintTypeSpec)\n            and self.type_spec().bit_size()\n            == cast(UintTypeSpec, value.type_spec()).bit_size()\n        ):", "        if isinstance(value, BaseType) and not (\n            isinstance(value.type_spec(), UintTypeSpec)\n        ):", "R19.3")
 V("twin-uint-set-size-names", "C19", "pyteal/ast/abi/uint.py", "        if isinstance(value, BaseType) and not (\n            isinstance(value.type_spec(), UintTypeSpec)\n            and self.type_spec().bit_size()\n            == cast(UintTypeSpec, value.type_spec()).bit_size()\n        ):", "        mine = self.type_spec().bit_size()\n        if isinstance(value, BaseType) and not (\n            isinstance(value.type_spec(), UintTypeSpec)\n            and mine == cast(UintTypeSpec, value.type_spec()).bit_size()\n        ):", None, "quiet")
 V("valid-base64-match", "C13", "pyteal/types.py", "    if pattern.fullmatch(s) is None:\n        raise TealInputError(\"{} is not a valid RFC 4648 base 64 string\".format(s))", "    if pattern.match(s) is None:\n        raise TealInputError(\"{} is not a valid RFC 4648 base 64 string\".format(s))", "R13.2")
@@ -338,3 +338,35 @@ V("subroutine-label-without-index", "C04", "pyteal/compiler/subroutines.py", "  
 V("subroutine-label-after-body", "C04", "pyteal/compiler/flatten.py", "        combinedOps.append(TealLabel(dexpr, LabelReference(label), comment))  # T2PT1\n        combinedOps += subroutineOps", "        combinedOps += subroutineOps\n        combinedOps.append(TealLabel(dexpr, LabelReference(label), comment))  # T2PT1", "R04.9")
 V("subroutine-no-implicit-retsub", "C02", "pyteal/compiler/compiler.py", "    if not ast.has_return():", "    if not ast.has_return() and currentSubroutine is None:", "R04.9")
 V("twin-flatten-subroutines-local", "C04", "pyteal/compiler/flatten.py", "        comment = subroutine.name()\n        labelPrefix = label + \"_\"", "        labelPrefix = label + \"_\"\n        comment = subroutine.name()", None, "quiet")
+
+# ------------------------------------------------------------------------------- round 3 rules
+V("asset-name-declared-uint64", "C05", "pyteal/ast/asset.py", "            TealType.bytes,\n            immediate_args=[\"AssetName\"],", "            TealType.uint64,\n            immediate_args=[\"AssetName\"],", "R05.8")
+V("asset-reserve-reads-freeze", "C05", "pyteal/ast/asset.py", "            immediate_args=[\"AssetReserve\"],", "            immediate_args=[\"AssetFreeze\"],", "R05.8")
+V("scratchload-literal-id", "C10", "pyteal/ast/scratch.py", "        op = TealOp(self, Op.load, s)", "        op = TealOp(self, Op.load, s.id if s.isReservedSlot else s)", "R10.7")
+V("int-accepts-subclasses", "C12", "pyteal/ast/int.py", "        if type(value) is not int:", "        if not isinstance(value, int) or isinstance(value, bool):", "R12.5")
+V("twin-int-type-check-form", "C12", "pyteal/ast/int.py", "        if type(value) is not int:", "        if not (type(value) is int):", None, "quiet")
+V("string-set-casefold", "C13", "pyteal/ast/abi/string.py", "                return self._stored_value.store(_encoded_byte_string(value.encode()))", "                return self._stored_value.store(_encoded_byte_string(value.strip().encode()))", "R13.5")
+V("twin-string-set-explicit-utf8", "C13", "pyteal/ast/abi/string.py", "                return self._stored_value.store(_encoded_byte_string(value.encode()))", "                return self._stored_value.store(_encoded_byte_string(value.encode(\"utf-8\")))", None, "quiet")
+V("methodsig-escaped", "C13", "pyteal/ast/methodsig.py", "        op = TealOp(self, Op.method_signature, '\"{}\"'.format(self.methodName))", "        op = TealOp(self, Op.method_signature, '\"{}\"'.format(self.methodName.encode(\"unicode-escape\").decode()))", "R13.1")
+V("assert-mutates-cond-list", "C15", "pyteal/ast/assert_.py", "            conds: list[Expr] = [self.cond[0]]", "            conds: list[Expr] = self.cond", "R15.7")
+V("module-level-int", "C15", "pyteal/ast/abi/bool.py", "class BoolTypeSpec(TypeSpec):", "_ONE = Int(1)\n\n\nclass BoolTypeSpec(TypeSpec):", "R15.8")
+V("pragma-swallow-blank", "C18", "pyteal/pragma/pragma.py", "            (?P<op><|<=|>=|>|=|\\^|~|)                       # Operator, can be empty", "            (?P<op><|<=|>=|>|=|\\^|~|)\\s*                    # Operator, can be empty", "R18.5")
+V("label-assemble-format-template", "C18", "pyteal/ir/teallabel.py", "        return \"{}{}:\".format(comment, self.label.getLabel())", "        return (comment + \"{}:\").format(self.label.getLabel())", "R18.3")
+V("twin-label-assemble-fstring", "C18", "pyteal/ir/teallabel.py", "        return \"{}{}:\".format(comment, self.label.getLabel())", "        return f\"{comment}{self.label.getLabel()}:\"", None, "quiet")
+V("namedtuple-eq-by-fields-only", "C19", "pyteal/ast/abi/tuple.py", "            and self.instance_class == other.instance_class\n            and self.value_type_specs() == other.value_type_specs()", "            and self.value_type_specs() == other.value_type_specs()", "R19.4")
+V("sdk-uint-next-wider", "C19", "pyteal/ast/abi/util.py", "                    match t.bit_size:\n                        case 8:\n                            return Uint8TypeSpec()", "                    match t.bit_size:\n                        case 8 | 4:\n                            return Uint8TypeSpec()\n                        case 24:\n                            return Uint32TypeSpec()", "R19.5")
+V("array-set-checks-first-only", "C19", "pyteal/ast/abi/array_base.py", "        for index, value in enumerate(values):\n            if self.type_spec().value_type_spec() != value.type_spec():", "        for index, value in enumerate(values[:1]):\n            if self.type_spec().value_type_spec() != value.type_spec():", "R19.3")
+V("trace-as-frames", "C20", "pyteal/ast/expr.py", "        self.trace = traceback.format_stack()[0:-1]", "        self.trace = traceback.extract_stack()[0:-1]", "R20.4")
+V("twin-trace-sliced-differently", "C20", "pyteal/ast/expr.py", "        self.trace = traceback.format_stack()[0:-1]", "        self.trace = traceback.format_stack()[:-1]", None, "quiet")
+V("address-set-list-only", "C06", "pyteal/ast/abi/address.py", "            case CollectionSequence():", "            case list():", "R06.5")
+V("dynamic-array-length-holder", "C07", "pyteal/ast/abi/array_dynamic.py", "        output = Uint16()\n        return Seq(", "        self._len = getattr(self, \"_len\", None) or Uint16()\n        output = self._len\n        return Seq(", "R07.5")
+V("static-array-length-not-int", "C07", "pyteal/ast/abi/array_static.py", "        self.array_length: Final = int(array_length)", "        self.array_length: Final = array_length", "R07.6")
+V("tuple-annotation-slip", "C07", "pyteal/ast/abi/tuple.py", "                return Tuple4[v0, v1, v2, v3]  # type: ignore[valid-type]", "                return Tuple4[v0, v1, v3, v2]  # type: ignore[valid-type]", "R07.7")
+V("router-build-without-optimize", "C05", "pyteal/ast/router.py", "            ap, csp, contract = self._build_program(\n                version=input.version, optimize=input.optimize\n            )", "            ap, csp, contract = self._build_program(version=input.version)", "R08.8")
+V("spill-only-without-frame-pointers", "C16", "pyteal/compiler/compiler.py", "        spillLocalSlotsDuringRecursion(\n            self.version, subroutineMapping, subroutineGraph, localSlotAssignments\n        )", "        if not options.use_frame_pointers:\n            spillLocalSlotsDuringRecursion(\n                self.version, subroutineMapping, subroutineGraph, localSlotAssignments\n            )", "R02.4")
+V("validate-slots-int-is-store", "C17", "pyteal/ir/tealblock.py", "                if op.getOp() == Op.store:\n                    for slot in op.getSlots():", "                if op.getOp() in (Op.store, Op.int):\n                    for slot in op.getSlots():", "R17.1")
+V("twin-validate-slots-names", "C17", "pyteal/ir/tealblock.py", "            block, inUse, isRoot = pending.pop()", "            entry = pending.pop()\n            block, inUse, isRoot = entry", None, "quiet")
+V("compile-error-eq-overloaded", "C17", "pyteal/errors.py", "        return self.msg == other.msg and self.sourceExpr is other.sourceExpr", "        return self.msg == other.msg and self.sourceExpr == other.sourceExpr", "R17.1")
+V("method-signature-python-name", "C08", "pyteal/ast/subroutine.py", "        if overriding_name is None:\n            overriding_name = self.name()\n        return f\"{overriding_name}", "        if overriding_name is None:\n            overriding_name = self.subroutine.implementation.__name__\n        return f\"{overriding_name}", "R09.5")
+V("methodcall-16-arguments-accepted", "C14", "pyteal/ast/itxn.py", "        if num_app_args > 15:", "        if num_app_args > 16:", "R14.1")
+V("label-getlabel-underscore", "C18", "pyteal/ir/labelref.py", "    def getLabel(self) -> str:\n        return self.label", "    def getLabel(self) -> str:\n        return (\"_\" + self.label) if self.label[:1].isdigit() else self.label", "R04.9")
